@@ -67,7 +67,7 @@ class Ty:
                 s = z3.SeqSort(self.elem.sort())
         elif k == "rec":
             dt = z3.Datatype(self.name)
-            dt.declare("mk_" + self.name, *[(f, t.sort()) for f, t in self.fields])
+            dt.declare("mk_" + self.name, *[(f"{self.name}_{f}", t.sort()) for f, t in self.fields])
             self._dt = dt.create()
             s = self._dt
         else:
@@ -96,6 +96,10 @@ BOOL = Ty("bool")
 STR = Ty("str")
 CHAR = Ty("char")
 VAL = Ty("val")
+
+VINT = z3.Function("vint", z3.IntSort(), VAL_SORT)  # int -> Val (injective: see world.val_axioms)
+VSTR = z3.Function("vstr", z3.StringSort(), VAL_SORT)
+VLIST = z3.Function("vlist", z3.SeqSort(VAL_SORT), VAL_SORT)
 
 _REC_CACHE = {}
 
@@ -178,8 +182,19 @@ def lift(v, ty=None):
                 return SV(z3.If(v.z, 1, 0), INT)
             if v.ty.kind == "enum" and ty.kind == "int" or v.ty.kind == "int" and ty.kind == "enum":
                 return SV(v.z, ty)
+            if ty.kind == "val" and v.ty.kind == "int":
+                return SV(VINT(v.z), VAL)
+            if ty.kind == "val" and v.ty.kind in ("str", "char"):
+                return SV(VSTR(v.z), VAL)
+            if ty.kind == "val" and v.ty.kind == "seq" and v.ty.elem.kind == "val":
+                return SV(VLIST(v.z), VAL)
             raise OutOfSubset(f"cannot coerce {v.ty} to {ty}")
         return v
+    if ty is not None and ty.kind == "val" and isinstance(v, (int, str)) and not isinstance(v, enum.Enum):
+        # injection of Python scalars into the opaque Vyxal value sort
+        if isinstance(v, str):
+            return SV(VSTR(z3.StringVal(v)), VAL)
+        return SV(VINT(z3.IntVal(int(v))), VAL)
     if isinstance(v, bool):
         if ty is not None and ty.kind == "int":
             return SV(z3.IntVal(int(v)), INT)
